@@ -2435,6 +2435,91 @@ def c01y(F, R):
         R.bad("direct", "what a node kills in memory names no word for a narrow store through sp: `sw zero, 0(sp); sb t0, 0(sp); lw a7, 0(sp)` keeps the claim slot 0 = 0", F.fn(kp)["sp"])
 
 
+@rule("C01", "C01.z.killed-slots-are-named-from-the-entry-sp", floor=2)
+def c01z(F, R):
+    """a node names the stack words it kills relative to the *current* sp (`sb t0, 9(sp)` kills 9-3 .. 9); the facts are keyed by the distance from the sp at
+    function entry. Before such a location touches the map it is moved by the current frame offset (`curr + offset`), and when that offset is not known any
+    slot may have been hit: every stack fact goes. Removing the untranslated key leaves the overlapped slot with its old claim in every frame that has moved sp"""
+    f = _avpass_run(F)
+    body = f["hir"]["value"]
+    ML = "riscv_analysis::analysis::memory_location::MemoryLocation::StackOffset"
+    loops = [lp for lp in for_loops(body) if any(y.get("k") == "MethodCall" and y["name"] == "kill_memory_values" for y in walk(lp["iter"], pats=False))]
+    if not loops:
+        raise Anchor("no loop over kill_memory_values() in the value pass")
+    for lp in loops:
+        lv = lp["pat"]["name"] if lp["pat"] is not None and lp["pat"].get("k") == "PBinding" else None
+        ms = [m for m in walk(lp["body"], pats=False) if m.get("k") == "Match" and m.get("src") in (None, "Normal") and peel(m["scrut"]).get("k") == "Tup" and len(peel(m["scrut"])["elems"]) == 2
+              and ekey(peel(m["scrut"])["elems"][0]).lstrip("&*") == lv and any(y.get("k") == "MethodCall" and y["name"] == "stack_offset" for y in walk(peel(m["scrut"])["elems"][1], pats=False))]
+        if lv is None or len(ms) != 1:
+            R.bad("shape", "UNEXTRACTABLE: the killed locations are not dispatched by `match (location, <current stack offset>)`", loc(lp["node"]))
+            continue
+        m = ms[0]
+
+        def takes(p, what):
+            """does the sub-pattern accept `what` (StackOffset | Some | None)?  -> (accepts, binder names)"""
+            while p.get("k") in ("PRef", "PDeref", "PBox"):
+                p = p["pat"]
+            if p.get("k") in ("PWild", "PBinding"):
+                return True, []
+            if p.get("k") == "POr":
+                rs = [takes(q, what) for q in p["pats"]]
+                return any(r[0] for r in rs), [b for r in rs if r[0] for b in r[1]]
+            res = p.get("res") or (peel(p.get("e") or {}).get("res") if p.get("k") == "PExpr" else "") or ""
+            want = {"StackOffset": ML, "Some": "core::option::Option::Some", "None": "core::option::Option::None"}[what]
+            if res == want:
+                return True, [b_["name"] for b_ in walk(p) if b_.get("k") == "PBinding"]
+            return False, []
+        for so in ("Some", "None"):
+            arm = binds = None
+            for a in m["arms"]:
+                tp = a["pat"]
+                if tp.get("k") != "PTuple" or len(tp["pats"]) != 2 or a.get("guard") is not None:
+                    if tp.get("k") in ("PWild", "PBinding"):
+                        arm, binds = a, ([], [])
+                        break
+                    continue
+                t0, t1 = takes(tp["pats"][0], "StackOffset"), takes(tp["pats"][1], so)
+                if t0[0] and t1[0]:
+                    arm, binds = a, (t0[1], t1[1])
+                    break
+            key = f"stack-word|frame-offset-{'known' if so == 'Some' else 'unknown'}"
+            if arm is None:
+                R.bad(key, "no arm handles a killed stack word in this case", loc(m))
+                continue
+            if so == "Some":
+                okk = False
+                for rm in walk(arm["body"], pats=False):
+                    if rm.get("k") == "MethodCall" and rm["name"] in ("remove", "insert") and rm["args"]:
+                        for c in walk(rm["args"][0], pats=False):
+                            if c.get("k") == "Call" and callee_of(c) == ML and c["args"]:
+                                try:
+                                    lf = linform(c["args"][0], local_inits(arm["body"]))
+                                except LinUnx:
+                                    continue
+                                if binds[0] and binds[1] and all(lf.get(b_, 0) == 1 for b_ in (binds[0][0], binds[1][0])) and lf.get("", 0) == 0 and len([k_ for k_, v_ in lf.items() if k_ and v_]) == 2:
+                                    okk = True
+                if okk:
+                    R.ok(key, detail="the slot dropped is `current frame offset + the node's offset`", where=loc(arm))
+                else:
+                    R.bad(key, "a stack word the node kills is dropped under the node's own sp-relative offset, not under `current frame offset + offset`: after `addi sp, sp, -16; sw s0, 8(sp)` the slot is -8, `sb t0, 9(sp)` removes slots 6..9 instead of -10..-7, and `lw s0, 8(sp)` still claims the saved value (a clobbered save of a callee-saved register goes unreported)", loc(arm))
+            else:
+                clears = [rm for rm in walk(arm["body"], pats=False) if rm.get("k") == "MethodCall" and rm["name"] in ("retain", "clear") ]
+                okk = False
+                for rm in clears:
+                    if rm["name"] == "clear":
+                        okk = True
+                    else:
+                        cl = closure_like(F, rm["args"][0]) or {}
+                        b = peel(cl.get("body") or {})
+                        neg = b.get("k") == "Unary" and b.get("op") == "Not"
+                        if any((y.get("res") or "") == ML for y in walk(b)) and neg:
+                            okk = True
+                if okk:
+                    R.ok(key, detail="with an unknown frame offset every stack fact is dropped", where=loc(arm))
+                else:
+                    R.bad(key, "a narrow store through sp whose frame offset is not known leaves the stack facts as they are: any of them may describe the word that was hit", loc(arm))
+
+
 @rule("C01", "C01.h.kill-reaches-values", floor=1)
 def c01h(F, R):
     """a fact whose *value* is written in terms of the current contents of a register (RegisterWithScalar / MemoryAtRegister built from an operand register) is dropped from both the register map and the memory map when the node overwrites that register"""
